@@ -1841,6 +1841,24 @@ theorem C14_posterior_of_frame (cfg : Config) (raw : List (RawRow ℝ)) (P : Pro
     obtain ⟨i, hi, hpost, _⟩ := p2 hp
     exact ⟨i, hi, hpost⟩
 
+/-- the identifier `0` is an identifier like any other: selecting it by the integer returns individual
+    `"0"`, not the first individual of the frame (a truthiness test on the selector would) -/
+theorem C14_selector_zero :
+    getLogPosterior Legacy.asIs (exProblem [("1", 1, 1), ("0", 2, 2)] ["1", "0"] false) (some (.int 0)) none
+      = .ok (.single ⟨"0", [⟨[2], [2]⟩], none⟩, none) ∧
+    getLogPosterior Legacy.asIs (exProblem [("1", 1, 1), ("0", 2, 2)] ["1", "0"] false) none none
+      = .ok (.single ⟨"1", [⟨[1], [1]⟩], none⟩, none) := by
+  have h10 : ¬ ("1" : String) = "0" := by decide
+  have h01 : ¬ ("0" : String) = "1" := by decide
+  have hk : RawId.key (.int 0) = "0" := by decide
+  constructor
+  · norm_num [getLogPosterior, selectIds, selectId, createLLs, setRegimen, createLL, outputsData, outData,
+      rowsFor, maskRows, exProblem, Legacy.asIs, timesAccepted, adjacentOk, List.lookup, sortByTime,
+      insertByTime, hk, List.filterMap_cons, List.filter_cons, h10, h01]
+  · norm_num [getLogPosterior, selectIds, selectId, createLLs, setRegimen, createLL, outputsData, outData,
+      rowsFor, maskRows, exProblem, Legacy.asIs, timesAccepted, adjacentOk, List.lookup, sortByTime,
+      insertByTime, List.filterMap_cons, List.filter_cons, h10, h01]
+
 /-! ## non-vacuity -/
 
 example : unique ["b", "a", "b", "c", "a"] = ["b", "a", "c"] := by decide
